@@ -1,6 +1,7 @@
 import RvModel.RealInst
 import RvModel.Gen.Defs
 import RvModel.Hand.StickConj
+import RvModel.Lemmas.C19Stick
 import Mathlib.Data.List.Perm.Basic
 import Mathlib.Analysis.SpecialFunctions.Gamma.Basic
 import Mathlib.Analysis.SpecialFunctions.Log.Basic
@@ -962,5 +963,145 @@ theorem exSB_valid : ValidSB exSB := by
   intro b hb
   simp only [exSB, List.mem_cons, List.not_mem_nil, or_false] at hb
   rcases hb with rfl | rfl <;> norm_num
+
+/-! ### `ln_f_stat` of the statistic = sum of the pointwise `ln_f`, whatever prefix of the stick sequence is realised -/
+
+open Hand.Stick in
+theorem LLW_nil_right (ws : List R) : LLW ws [] = 0 := by cases ws <;> simp [LLW]
+
+theorem LLW_addC (ws : List R) (c1 c2 : List ℕ) (h1 : c1.length ≤ ws.length) (h2 : c2.length ≤ ws.length) :
+    LLW ws (addC c1 c2) = LLW ws c1 + LLW ws c2 := by
+  induction ws generalizing c1 c2 with
+  | nil =>
+    have e1 : c1 = [] := List.length_eq_zero_iff.mp (by simpa using h1)
+    have e2 : c2 = [] := List.length_eq_zero_iff.mp (by simpa using h2)
+    simp [e1, e2, LLW]
+  | cons w ws ih =>
+    cases c1 with
+    | nil => simp [LLW_nil_right]
+    | cons a as =>
+      cases c2 with
+      | nil => simp [LLW_nil_right]
+      | cons b bs =>
+        have := ih as bs (by simpa using h1) (by simpa using h2)
+        simp only [addC_cons, LLW, this, Nat.cast_add]
+        ring
+
+theorem LLW_unitC (ws : List R) (x : ℕ) (hx : x < ws.length) :
+    LLW ws (unitC x) = Real.log (ws.getD x RealLike.nan).val := by
+  induction ws generalizing x with
+  | nil => simp at hx
+  | cons w ws ih =>
+    cases x with
+    | zero => simp [unitC, LLW, LLW_nil_right]
+    | succ x =>
+      have e : unitC (x + 1) = 0 :: unitC x := by simp [unitC, List.replicate_succ]
+      have := ih x (by simpa using hx)
+      simp [e, LLW, this]
+
+theorem length_countsOf_le (xs : List ℕ) (n : ℕ) (h : ∀ x ∈ xs, x < n) : (countsOf xs).length ≤ n := by
+  induction xs with
+  | nil => simp [countsOf_nil]
+  | cons x xs ih =>
+    rw [countsOf_cons, length_addC, length_unitC]
+    have h1 : x < n := h x (by simp)
+    have h2 := ih (fun y hy => h y (by simp [hy]))
+    omega
+
+theorem lt_length_countsOf (xs : List ℕ) : ∀ x ∈ xs, x < (countsOf xs).length := by
+  induction xs with
+  | nil => intro x hx; cases hx
+  | cons y ys ih =>
+    intro x hx
+    rw [countsOf_cons, length_addC, length_unitC]
+    rcases List.mem_cons.mp hx with rfl | h
+    · omega
+    · have := ih x h; omega
+
+/-- on any weight vector covering the data, `Σ_i counts_i · ln w_i` of the statistic of `xs` is `Σ_{x ∈ xs} ln w_x` -/
+theorem LLW_countsOf (ws : List R) (xs : List ℕ) (h : ∀ x ∈ xs, x < ws.length) :
+    LLW ws (countsOf xs) = (xs.map (fun x => Real.log (ws.getD x RealLike.nan).val)).sum := by
+  induction xs with
+  | nil => simp [countsOf_nil, LLW_nil_right]
+  | cons x xs ih =>
+    have hx : x < ws.length := h x (by simp)
+    have hrest : ∀ y ∈ xs, y < ws.length := fun y hy => h y (by simp [hy])
+    rw [countsOf_cons, LLW_addC ws _ _ (by rw [length_unitC]; omega) (length_countsOf_le xs _ hrest),
+      LLW_unitC ws x hx, ih hrest]
+    simp
+
+/-- the weighted sum only reads the first `counts.length` weights -/
+theorem LLW_map_range' (f : ℕ → R) (k N : ℕ) (counts : List ℕ) (h : counts.length ≤ N) :
+    LLW ((List.range' k N).map f) counts
+      = ∑ i ∈ Finset.range counts.length, (counts.getD i 0 : ℝ) * Real.log (f (k + i)).val := by
+  induction counts generalizing k N with
+  | nil => simp [LLW_nil_right]
+  | cons c cs ih =>
+    cases N with
+    | zero => simp at h
+    | succ N =>
+      have := ih (k + 1) N (by simpa using h)
+      rw [List.range'_succ, List.map_cons, LLW, this, List.length_cons, Finset.sum_range_succ']
+      simp only [List.getD_cons_succ, List.getD_cons_zero, Nat.add_zero]
+      rw [add_comm]
+      congr 1
+      apply Finset.sum_congr rfl
+      intro i _
+      rw [show k + 1 + i = k + (i + 1) by omega]
+
+open Hand.Stick C19 in
+theorem sbdLnF_spec (breaks : ℕ → R) (s : S R) (hs : SInv breaks s) (x : ℕ) :
+    (sbdLnF breaks s x).1.val = Real.log (weightFn breaks x).val ∧ SInv breaks (sbdLnF breaks s x).2 := by
+  obtain ⟨h1, h2⟩ := ensure_spec breaks (x + 1) s hs
+  have hl := sinv_length breaks _ h1
+  have hd : x + 1 ≤ (ensureBreaks breaks (x + 1) s).drawn := by rw [h2]; exact Nat.le_max_right _ _
+  refine ⟨?_, h1⟩
+  simp only [sbdLnF, R.ln_val]
+  rw [sinv_getD breaks _ h1 x (by omega), sinv_getD breaks _ h1 (x + 1) (by omega)]
+  rfl
+
+open Hand.Stick C19 in
+theorem sbdLnFs_spec (breaks : ℕ → R) (s : S R) (hs : SInv breaks s) (xs : List ℕ) :
+    (sbdLnFs breaks s xs).1.map R.val = xs.map (fun x => Real.log (weightFn breaks x).val)
+      ∧ SInv breaks (sbdLnFs breaks s xs).2 := by
+  induction xs generalizing s with
+  | nil => exact ⟨rfl, hs⟩
+  | cons x xs ih =>
+    obtain ⟨e1, e2⟩ := sbdLnF_spec breaks s hs x
+    obtain ⟨e3, e4⟩ := ih _ e2
+    exact ⟨by simp only [sbdLnFs, List.map_cons, e1, e3], e4⟩
+
+open Hand.Stick C19 in
+/-- `ln_f_stat` as the finite sum `Σ_{i < len} counts_i · ln w_i` of the TRUE weights, from any realised state -/
+theorem sbdLnFStat_spec (breaks : ℕ → R) (s : S R) (hs : SInv breaks s) (counts : List ℕ) :
+    (sbdLnFStat breaks s counts).1.val
+        = ∑ i ∈ Finset.range counts.length, (counts.getD i 0 : ℝ) * Real.log (weightFn breaks i).val
+      ∧ SInv breaks (sbdLnFStat breaks s counts).2 := by
+  obtain ⟨h1, h2⟩ := ensure_spec breaks counts.length s hs
+  refine ⟨?_, h1⟩
+  have hd : counts.length ≤ (ensureBreaks breaks counts.length s).drawn := by rw [h2]; exact Nat.le_max_right _ _
+  simp only [sbdLnFStat]
+  rw [lnFStatOfWeights_val, weightsOf_spec breaks _ h1, List.range_eq_range', LLW_map_range' _ 0 _ counts hd]
+  simp
+
+open Hand.Stick C19 in
+theorem sbdLnFStat_countsOf (breaks : ℕ → R) (s : S R) (hs : SInv breaks s) (xs : List ℕ) :
+    (sbdLnFStat breaks s (countsOf xs)).1.val = (xs.map (fun x => Real.log (weightFn breaks x).val)).sum := by
+  obtain ⟨h1, h2⟩ := ensure_spec breaks (countsOf xs).length s hs
+  have hd : (countsOf xs).length ≤ (ensureBreaks breaks (countsOf xs).length s).drawn := by
+    rw [h2]; exact Nat.le_max_right _ _
+  simp only [sbdLnFStat]
+  rw [lnFStatOfWeights_val, weightsOf_spec breaks _ h1]
+  have hcov : ∀ x ∈ xs, x < ((List.range (ensureBreaks breaks (countsOf xs).length s).drawn).map (weightFn breaks)).length := by
+    intro x hx
+    have := lt_length_countsOf xs x hx
+    simp only [List.length_map, List.length_range]; omega
+  rw [LLW_countsOf _ xs hcov]
+  congr 1
+  apply List.map_congr_left
+  intro x hx
+  have hx' : x < (ensureBreaks breaks (countsOf xs).length s).drawn := by
+    have := lt_length_countsOf xs x hx; omega
+  simp [List.getD_eq_getElem?_getD, List.getElem?_map, List.getElem?_range hx']
 
 end C05SL
